@@ -186,3 +186,13 @@ func VerifHarness_C10_EmptyFields() {
 	_ = db.SearchWithFuzzy(q, o)
 	verifReach("returned")
 }
+
+// long queries (more informative terms than any cap) with the term cap an arbitrary integer
+func VerifHarness_C10_LongQueryCap() {
+	db := c01DB(5) // vocabulary: aa bb cc dd ee ff gg
+	q := []string{"aa bb cc dd ee ff", "aa bb cc dd ee ff gg hh ii jj kk ll", "gg ff ee dd cc"}[verifIntRange("query", 0, 2)]
+	o := SearchOptions{Limit: 5, TopTermsCap: verifInt("termsCap"), UseNLP: verifBool("nlp"), AllPlatforms: true}
+	res := db.SearchUniversal(q, o)
+	verifAssert(len(res) <= 5, "C10: any query and options give a bounded list")
+	verifReach("returned")
+}
